@@ -118,8 +118,11 @@ def h264_key(rng, extra=True):
     if extra and rng.chance(1, 4):
         parts.append(sc(rng) + h264_nal(rng, 9, 1))  # AUD
     # parameter sets of every small length as well (1..4-byte SPS: the avcC builder reads bytes 1..3)
-    parts.append(sc(rng) + h264_nal(rng, 7, rng.choice([0, 1, 2, 2, 3]) if rng.chance(1, 6) else rng.range(3, 14)))
-    parts.append(sc(rng) + h264_nal(rng, 8, 0 if rng.chance(1, 10) else rng.range(1, 5)))
+    ps = [sc(rng) + h264_nal(rng, 7, rng.choice([0, 1, 2, 2, 3]) if rng.chance(1, 6) else rng.range(3, 14)),
+          sc(rng) + h264_nal(rng, 8, 0 if rng.chance(1, 10) else rng.range(1, 5))]
+    if rng.chance(1, 6):
+        ps.reverse()          # PPS before SPS
+    parts += ps
     if extra and rng.chance(1, 4):
         parts.append(sc(rng) + h264_nal(rng, 6, 3))  # SEI
     if extra and rng.chance(1, 5):
@@ -145,6 +148,10 @@ def h265_key(rng, extra=True):
     if short and rng.chance(1, 3):
         k = rng.below(3)
         parts[k] = parts[k][:-1] if len(parts[k]) > 4 else parts[k]     # a parameter set cut inside its 2-byte header
+    if rng.chance(1, 4):
+        # any order of the three parameter sets is legal as long as they precede the slice
+        order = rng.choice([[0, 2, 1], [1, 0, 2], [1, 2, 0], [2, 0, 1], [2, 1, 0]])
+        parts = [parts[k] for k in order]
     if extra and rng.chance(1, 4):
         parts.insert(0, sc(rng) + hevc_nal(rng, 35, 1))
     if extra and rng.chance(1, 4):
@@ -296,12 +303,20 @@ def opus_packet(rng):
     return bytes([toc]) + rng.bytes(rng.range(0, 30))
 
 
+def annexb_tail(rng, codec):
+    """now and then an Annex B frame ends in a dangling start code or stray zero bytes (legal input: an
+    empty trailing unit), which must not leak into the stored sample"""
+    if codec in ("h264", "h265") and rng.chance(1, 8):
+        return rng.choice([SC3, SC4, b"\x00", b"\x00\x00", b"\x00\x00\x00", SC3 + SC3, SC4 + b"\x00"])
+    return b""
+
+
 def video_key(rng, codec):
-    return {"h264": h264_key, "h265": h265_key, "av1": av1_key, "vp9": vp9_key}[codec](rng)
+    return {"h264": h264_key, "h265": h265_key, "av1": av1_key, "vp9": vp9_key}[codec](rng) + annexb_tail(rng, codec)
 
 
 def video_delta(rng, codec):
-    return {"h264": h264_delta, "h265": h265_delta, "av1": av1_delta, "vp9": vp9_delta}[codec](rng)
+    return {"h264": h264_delta, "h265": h265_delta, "av1": av1_delta, "vp9": vp9_delta}[codec](rng) + annexb_tail(rng, codec)
 
 
 def audio_frame(rng, acodec):
